@@ -355,7 +355,7 @@ def shallow_copy(I, v):
             I.dict_set(r, getattr(v, "keyobjs", {}).get(kk, kk), v.items[kk])
         return r
     if isinstance(v, AbsColl):
-        return v
+        return v if v.kind == "frozenset" else v.clone()
     if isinstance(v, Opaque):
         # a copy of an opaque value: equal content (same ident), new identity
         return Opaque(v.name + "'", v.ident)
